@@ -58,3 +58,24 @@ def c19_recip(w):
         return abs(x - y) <= 1e-9 * max(1.0, abs(x), abs(y))
     return all(close(f, 1.0 / (r + d * a)) for f, d in zip(first, Dorig)) and \
         all(close(s2, 1.0 / (r + d)) for s2, d in zip(second, Dorig))
+
+
+@classifier("c02_max_length_diff_zero_is_off_in_c")
+def c02_mld0(w):
+    """Python-style call with max_length_diff=0 and series of different lengths: the Python engine returns inf, the C
+    engine returns what the Python engine returns with the limit switched off."""
+    if w.get("kind") != "engine-mismatch":
+        return False
+    st = w.get("settings") or {}
+    if st.get("max_length_diff") != 0 or st.get("max_length_diff") is None or isinstance(st.get("max_length_diff"), bool):
+        return False
+    if len(w.get("s1") or []) == len(w.get("s2") or []):
+        return False
+    if w.get("python") not in (float("inf"), "inf"):
+        return False
+    m = w.get("python_with_the_limit_off")
+    c = w.get("c")
+    if m is None or c is None:
+        return False
+    m, c = float(m), float(c)
+    return m == c or abs(m - c) <= 1e-12 * max(1.0, abs(m))
